@@ -954,7 +954,7 @@ class ExistsCriterion(Criterion):
     def get_sql(self, **kwargs):
         # FIXME escape
         return "{not_}EXISTS {container}".format(
-            container=self.container.get_sql(**kwargs), not_='NOT ' if self._is_negated else ''
+            container=self.container.get_sql(**dict(kwargs, subquery=True)), not_='NOT ' if self._is_negated else ''
         )
 
     @builder
